@@ -84,6 +84,9 @@ func (c05Suite) Gen(rng *Rng, tier string, w *bufio.Writer, stats *Stats) {
 		emit("pathshape", "q "+payload(q, nil))
 		stats.Inc("pathshapes")
 	}
+	for _, q := range c05TotalityShapes {
+		emit("totality", "q "+payload(q, nil))
+	}
 	for i := 0; i < npath; i++ {
 		emit("pathshape", "q "+payload(genPathShapeQuery(rng), nil))
 		stats.Inc("pathshapes")
@@ -197,6 +200,19 @@ func c05Battery(ast *cypher.RegularQuery, params map[string]any) c05Verdict {
 			v.cls, v.detail = "nondeterministic", fmt.Sprintf("sequential run %d: %s | first: %s", i, firstTextDiff(ref.key(), o.key()), o.Status)
 			return v
 		}
+	}
+	// inputs are compared BEFORE the concurrent phase as well: sixteen goroutines sharing an AST or a parameter map that
+	// the translator writes to would end in Go's unrecoverable "concurrent map writes" instead of a verdict
+	if mid := ToSexp(ast); mid != beforeAST {
+		v.cls, v.detail = "ast-mutated", firstTextDiff(beforeAST, mid)
+		return v
+	}
+	if mid := ToSexp(params); mid != beforeParams {
+		v.cls, v.detail = "params-mutated", firstTextDiff(beforeParams, mid)
+		if strings.ReplaceAll(mid, "(list)", "nil") == strings.ReplaceAll(beforeParams, "(list)", "nil") {
+			v.cls = "params-mutated:nil-slice-to-empty"
+		}
+		return v
 	}
 	if ref.Status != "panic" {
 		outs := make([]c05Outcome, c05Concurrent)
@@ -727,6 +743,28 @@ var c05PathShapes = []string{
 	"MATCH p = (a:NodeKind1)-[:EdgeKind1]->(b) MATCH q = (b)-[:EdgeKind2]->(c:NodeKind2) RETURN size(relationships(p)) + size(relationships(q)) AS hops, nodes(p), nodes(q)",
 	"MATCH p = (a)-[:EdgeKind1]->(b), q = (b)-[:EdgeKind2]->(c) WHERE size(nodes(q)) = 2 RETURN relationships(p), nodes(p) ORDER BY size(nodes(p))",
 	"MATCH p = (a)-[:EdgeKind1]->(b), q = (b)-[:EdgeKind2]->(c) RETURN nodes(p), relationships(q)",
+}
+
+// shapes aimed at the partial operations of translate/ that no guard protects (see unguardedPartialSites): coalesce
+// argument popping, quantifiers over path components in every polarity, bound-endpoint seed rewriting with function
+// calls / array expressions / casts in the endpoint constraint, kind arrays in CREATE / SET / REMOVE, pattern predicates.
+var c05TotalityShapes = []string{
+	"MATCH (n) RETURN coalesce(n.a, n.b, 'x')",
+	"MATCH (n) WHERE coalesce(n.a, n.b) = 'x' RETURN n",
+	"MATCH p = (a)-[:EdgeKind1*1..]->(b) WHERE none(r IN relationships(p) WHERE r.enabled = true) RETURN p",
+	"MATCH p = (a)-[:EdgeKind1*1..]->(b) WHERE all(r IN relationships(p) WHERE r.enabled = true) RETURN p",
+	"MATCH p = (a)-[:EdgeKind1*1..]->(b) WHERE any(r IN relationships(p) WHERE r.enabled = true) RETURN p",
+	"MATCH p = (a)-[:EdgeKind1*1..]->(b) WHERE single(r IN relationships(p) WHERE r.enabled = true) RETURN p",
+	"MATCH p = (a)-[:EdgeKind1*1..]->(b) WHERE none(x IN nodes(p) WHERE x.name = 'a') RETURN p",
+	"MATCH (a:NodeKind1) WHERE a.name = 'x' MATCH (a)-[:EdgeKind1*1..]->(b:NodeKind2) WHERE toLower(b.name) = 'y' AND b.arr[0] = 1 RETURN b",
+	"MATCH (a:NodeKind1) WHERE a.name = 'x' MATCH (a)-[:EdgeKind1*1..]->(b) WHERE b.name IN ['a', 'b'] AND size(b.arr) > 1 AND toString(b.value) = '1' RETURN b",
+	"MATCH (a:NodeKind1) WHERE id(a) IN [1, 2] MATCH (a)<-[:EdgeKind1*1..3]-(b) WHERE coalesce(b.name, 'z') = 'z' AND b.arr[0..1] = ['a'] RETURN b",
+	"MATCH (a) WHERE a.name = 'x' MATCH p = shortestPath((a)-[:EdgeKind1*1..]->(b:NodeKind2)) WHERE any(t IN b.arr WHERE t = 'x') RETURN p",
+	"MATCH (n:NodeKind1) WHERE (n)-[:EdgeKind1]->(:NodeKind2) AND NOT (n)<-[:EdgeKind2]-() RETURN n",
+	"MATCH (n) WHERE id(n) = 1 SET n:NodeKind1:NodeKind2 REMOVE n:NodeKind1 RETURN n",
+	"CREATE (a:NodeKind1:NodeKind2 {name: 'x'})-[:EdgeKind1 {w: 1}]->(b:NodeKind2) RETURN a, b",
+	"MATCH (a)-[r:EdgeKind1]->(b)-[q:EdgeKind2*1..2]->(c)-[t:EdgeKind1]->(d) WHERE r <> t RETURN a, d",
+	"MATCH (n) WHERE n.name IN ['a', 'b'] OR n.arr = [] OR n.value IN [1, 2.5] RETURN n",
 }
 
 func genPathShapeQuery(rng *Rng) string {
